@@ -1,5 +1,6 @@
 //! vf-eng-e: engine-level checks C11 (no transaction can crash the engine), C38 (static resource
-//! movement bounds are sound) and the engine parts of C36 / C37.
+//! movement bounds are sound) and the engine parts of C36 / C37 (assembled here together with
+//! vf-manifest's static parts).
 
 pub mod args;
 pub mod c11;
@@ -7,7 +8,17 @@ pub mod c36;
 pub mod c37;
 pub mod c38;
 pub mod env;
+pub mod scenario;
 
 pub fn checks() -> Vec<vf_core::Check> {
-    vec![c11::check(), c36::check(), c37::check(), c38::check()]
+    let mut v = vec![c11::check(), c36::check(), c37::check(), c38::check()];
+    // development / sensitivity aid: run only the engine part of the composite checks
+    if std::env::var_os("VF_ENGINE_PARTS_ONLY").is_some() {
+        for c in v.iter_mut() {
+            if c.parts.iter().any(|p| p.name == "engine") {
+                c.parts.retain(|p| p.name == "engine");
+            }
+        }
+    }
+    v
 }
